@@ -1000,6 +1000,26 @@ func (s *Service) runPipeline(ctx context.Context, rp *runnablePipeline) error {
 		// meantime), a blind Delete(id) would remove that OTHER run instead
 		// of just undoing this one's own publication.
 		s.deleteRunningPipelineIfCurrent(rp.pipeline.ID, rp)
+		// The nodes were already started above and no cleanup goroutine
+		// exists yet that would ever record their end: stop them, otherwise
+		// the run keeps reading, writing and acking unattended - unreachable
+		// by Stop, holding its connectors and processors - while the caller
+		// is told that the start failed.
+		cause := cerrors.FatalError(cerrors.Errorf("could not mark pipeline %s as running: %w", rp.pipeline.ID, err))
+		rp.t.Kill(cause)
+		for _, n := range rp.n {
+			if node, ok := n.(stream.ForceStoppableNode); ok {
+				node.ForceStop(ctx)
+			}
+		}
+		nodesWg.Wait()
+		// UpdateStatus changed the in-memory status before the write failed:
+		// without a correction the pipeline would be "running" for Start and
+		// "not running" for Stop from now on. Record why it is not running;
+		// the in-memory status is corrected even if the store still fails.
+		if updateErr := s.pipelines.UpdateStatus(ctx, rp.pipeline.ID, pipeline.StatusDegraded, fmt.Sprintf("%+v", cause)); updateErr != nil {
+			s.logger.Err(ctx, updateErr).Str(log.PipelineIDField, rp.pipeline.ID).Msg("could not store the degraded status")
+		}
 		return err
 	}
 
